@@ -23,6 +23,24 @@ func FuzzC05(f *testing.F) {
 		f.Add(uint8(i), []byte{0xdf, 0x06, 'E', 'B', 'P', '0', 0xff, 0x9c}, uint16(3))
 		f.Add(uint8(i), []byte{0, 0, 1, 0xe0, 0, 0, 0x84, 0xc0, 0x0a, 0x31, 0, 1, 0, 1, 0x11, 0, 1, 0, 1}, uint16(0))
 	}
+	// richer seeds: well-formed vectors of the generators (among them a signal with the stream-switch structure and a
+	// PMT with descriptors of the tags the library decodes), so that the mutation engine starts inside the formats
+	{
+		r := rand.New(rand.NewSource(5))
+		d := rndSeg(r)
+		d.Cancel, d.Dnr, d.UpidType, d.Upid, d.Comps, d.ProgSeg = false, false, 0x0d, nil, nil, true
+		d.Mid = []absMid{{Type: 9, Upid: []byte("BLACKOUT:abc")}, {Type: 14, Upid: []byte("comcast:linear:licenserotation")}}
+		sg := absSig{TableId: 0xfc, Tier: 0xfff, Cmd: absCmd{Kind: "time", Spec: true, Pts: 12345}, Descs: []absSDesc{d}}
+		vss := append([]byte{0}, sg.section()...)
+		pm := randPMT(r, 3, true)
+		pm.Streams[0].Descs = append(pm.Streams[0].Descs, absDescr{Tag: 5, Body: []byte("DOVI")}, absDescr{Tag: 0xb0, Body: []byte{1, 0, 0x10, 0x29}},
+			absDescr{Tag: 10, Body: []byte("eng\x00")}, absDescr{Tag: 14, Body: []byte{0xc0, 0x10, 0x00}}, absDescr{Tag: 0x7f, Body: []byte{0x20, 'e', 'n', 'g', 0x10, 0, 0}})
+		pmtv := c06Payload(0, nil, pmtSection(pm), 0)
+		for i := range c05Ops {
+			f.Add(uint8(i), vss, uint16(i))
+			f.Add(uint8(i), pmtv, uint16(i))
+		}
+	}
 	f.Fuzz(func(t *testing.T, opi uint8, in []byte, arg uint16) {
 		if len(in) > 2048 {
 			in = in[:2048]
